@@ -9,9 +9,9 @@ package ast
 // ---- node model: every Node value owns one embedded BaseNode (checked by the scan `node-accessors`) ----
 ghost base(v addr) addr       // address of the BaseNode embedded in node value v
 ghost nodeOf(a addr) addr     // inverse of base
-defaxiom nodeModel: base(nil) == 0 && (forall v addr {base(v)} :: v != nil ==> (base(v) > 0 && nodeOf(base(v)) == v))
+defaxiom nodeModel: base(nil) == 0 && (forall v addr {base(v)} :: v != nil ==> (base(v) != 0 && nodeOf(base(v)) == v))
 
-macro bn(v)    = ptr(base(v), "*BaseNode")
+macro bn(v)    = ptr(base(v), "*ast.BaseNode")
 macro par(v)   = bn(v).parent
 macro nxt(v)   = bn(v).next
 macro prv(v)   = bn(v).prev
